@@ -167,6 +167,17 @@ CHECKS = {
         technique="TLA+ decision model + contract monitor; TLC-enumerated grid; seeded concretisation; TLC trace validation",
         design_ref="4 C15",
         note=TRUST + " Pickle itself is outside any TLA+ model: equality and exact type are observed facts the contract requires."),
+    "C16": dict(
+        category="model_checking",
+        text="The abstract-cache histories exported by TLC from spec/Cache.tla (every server state: hit, miss, cas mismatch, non-numeric, expired) "
+             "plus calls exercising the options (str/int values under both encodings, a Unicode key with unicode keys on/off, explicit flags, "
+             "keyword expire/defaults) are executed on a plain Client and, identically configured, on PooledClient, single-server HashClient (pooled "
+             "and not) and RetryingClient (attempts 1 and 2) over the grid key_prefix x default_noreply x encoding x allow_unicode_keys x serializer x "
+             "three timeout pairs. TLC decides each call with spec/WrapRule.tla: same parsed command stream at the reference server, same result or "
+             "same kind of error, same I/O timeout, same connect timeout and socket options; every wrapper execution is also validated against the "
+             "abstract cache (spec/CacheTrace.tla).",
+        technique="TLA+ contract monitors (WrapRule, CacheRule) evaluated by TLC over paired executions; histories generated by TLC from Cache.tla",
+        design_ref="4 C16", note=TRUST + " Arguments by keyword where signatures differ; RetryingClient may repeat a failing call (C17)."),
     "C17": dict(
         category="model_checking",
         text="TLC explores the as-coded model of RetryingClient.__init__/_retry (spec/Retrying.tla) against the contract "
